@@ -3,6 +3,7 @@
 # 1. confirms the seeded change in a scratch worktree (demo fails with it, passes without, suite passes with it)
 # 2. applies it to /repo, runs the property's quick check, and undoes it
 set -u
+if [ -n "$(git -C /repo status --porcelain)" ]; then echo "refusing: /repo has uncommitted changes (commit them first)"; exit 2; fi
 D=$(cd "$1" && pwd); P=$2; PKG=$3
 export GOFLAGS=-mod=mod GOPROXY=off GOSUMDB=off GOTOOLCHAIN=local
 WT=$(mktemp -d /tmp/seedwt-XXXX); rmdir $WT
